@@ -5,11 +5,13 @@ import Pyx12Verif.Drv.C14
 import Pyx12Verif.Drv.C15
 import Pyx12Verif.Drv.C17
 import Pyx12Verif.Drv.C19
+import Pyx12Verif.Drv.C04
+import Pyx12Verif.Drv.C01
 
 open Pyx12Verif
 
 def handlers : List (List (List Char) → Option String) :=
-  [Drv.C13.handle, Drv.C14.handle, Drv.C15.handle, Drv.C17.handle, Drv.C19.handle]
+  [Drv.C13.handle, Drv.C14.handle, Drv.C15.handle, Drv.C17.handle, Drv.C19.handle, Drv.C04.handle, Drv.C01.handle]
 
 partial def loop (hin hout : IO.FS.Stream) (st : Drv.Walk.DState) : IO Unit := do
   let line ← hin.getLine
